@@ -44,7 +44,7 @@ ASSUMPTIONS = [
     'repetition counts are small positive integers in generated cases (the theorems are for all counts)',
 ]
 MANIFEST = {
-    'level_text': 'Proof: 52 unbounded theorems over an executable Coq model of waveforms.py: vectorised sampler = pointwise '
+    'level_text': 'Proof: 54 unbounded theorems over an executable Coq model of waveforms.py: vectorised sampler = pointwise '
                   'meaning on every sorted grid (all 11 classes); constant_value sound on [0,duration) for all classes; '
                   '__eq__ => same behaviour; reversed()/double reversal laws; totality REFUTED on the unchanged code '
                   '(sequence/repetition at t=duration, reversal around them, chained parallel+linear KeyError) and proved under '
@@ -55,9 +55,10 @@ MANIFEST = {
                   '[0,duration), closed interval under the guard final_triple = false, the refuted class); history independence '
                   '(no transforming nodes: any history; any transformations: arrays not mutated, no linear output shadowing a '
                   'forwarded channel - refuted without that guard); code meaning = DESIGN 4.4 denotation for leaf-only reversal '
-                  'incl. transformations. Not proved (only tested through the denotational oracle): the composed statement over '
+                  'incl. transformations, and for reversal anywhere (mirror law) away from the junctions an executable parity '
+                  'guard excludes. Not proved (only tested through the denotational oracle): the composed statement over '
                   'construction recipes and get_subset in general (both refuted unguarded at t=0 below reversed sequences), '
-                  'mirror law against the denotation away from junctions. The model (incl. a state machine for the '
+                  'mirror law with transformations below a reversal. The model (incl. a state machine for the '
                   'TransformingWaveform cache) is tied to /repo by an exact correspondence check, an independent denotation '
                   '(DESIGN 4.4) on generated waveform trees, and a decimal-duration stream compared under tolerance 2^-30.',
     'level_note': 'Trusted: Coq kernel, numpy/sympy semantics as modelled, harness (py_build, printers), Python hash. Float '
